@@ -8,7 +8,8 @@
 // database defaults), (b) reads the row identified by each record's in-memory key with RAW SQL and
 // compares a unique payload plus every column, (c) reads it back through gorm (First/Take/Find into
 // fresh structs and maps) and compares field-wise with representation-aware equality. At the end of a
-// database the records are read again into destinations that are used more than once (reuse.go).
+// database the records are read again into destinations that are used more than once (reuse.go): one map,
+// one struct (the same record again; other records after the key fields were reset), ScanRows loops, slices.
 package c03
 
 import (
@@ -1269,18 +1270,20 @@ var Engine = &core.Engine{
 	ID:    "C03",
 	Level: "exploration",
 	Rule: "one generated model type per case (reflect.StructOf over 62 field kinds: all int/uint widths, floats, bool, string, []byte, time.Time, pointers to each, sql.Null*, " +
-		"custom Scanner/Valuer types string-/struct-/slice-/map-based with value and pointer receivers, serializer json/gob/unixtime, types that are their own serializer with merging Scan (struct with omitempty members, map, slice, string; records get different member sets); tags column (plain and mixed case), literal and " +
+		"custom Scanner/Valuer types string-/struct-/slice-/map-based with value and pointer receivers, serializer json/gob/unixtime, types that are their own serializer with merging Scan (struct with omitempty members, map, slice, string; records get different member sets; serialized structs / maps / slices differ between records in which members are zero, which keys a map has and how long a slice is); tags column (plain, mixed case, an SQL keyword, and - in a quarter of the generated models - " +
+		"the exact Go name of ANOTHER field of the model whose own column is a different one, also crossed: A `column:B`, B `column:A`; the other field may be a key or a leaf of an embedded struct), literal and " +
 		"database-function defaults, default:null, autoCreateTime/autoUpdateTime (time, s, ms, ns; by tag and by name), not null, <- permissions; value- and pointer-embedded structs with " +
 		"embeddedPrefix, nested; keys: auto-increment (8 integer kinds, explicit/implicit/renamed), non-auto int, string, composite of 2 and 3) or, every 8th case, one of 3 static models " +
 		"(anonymous value/pointer embedding, gorm.Model, TableName, anonymous embeddedPrefix); each model x {RETURNING, LastInsertId reversed, LastInsertId first-id} on a fresh database x " +
 		"13 Create calls (single first, then in random order single, &[]T, &[]*T, []*T, CreateInBatches over values/pointers with batch 1..n+1, map, &map, &[]map, one more slice shape, and last []map by value and CreateInBatches over []map / &[]map; " +
 		"auto keys zero / explicit / mixed within one slice) with boundary values; every record is read back by key with First / Take / Find into a fresh struct and with Model-bound Take / First / Find and Table-bound Take into a fresh map; " +
 		"then consecutive First/Take of the records compared only after the round (3 rounds for self-serializing models); then DESTINATIONS USED MORE THAN ONCE: one map variable (nil or empty at first, by pointer or by value) as destination of up to 8 consecutive Take/First " +
-		"calls for different records (Model-bound in every database; Table-bound, and the four that follow, in every second database), a record read a second time into the struct that holds it, rows.Next loops with ScanRows into one map / one struct declared outside of the loop, " +
+		"calls for different records (Model-bound in every database; Table-bound, and the four that follow, in every second database), a record read a second time into the struct that holds it, " +
+		"in every database ONE struct variable as destination of up to 6 consecutive Take / First / Find calls for DIFFERENT records (its key fields reset to zero before each call; every field whose column holds a value in the row read is compared, signature read-reused-struct-other/), rows.Next loops with ScanRows into one map / one struct declared outside of the loop, " +
 		"Find into a slice ([]T or []*T) that still holds an earlier Find in another order (records differ in which columns are NULL: a column that is NULL after it held a value in the same destination is counted, reused_map_null_after_value); " +
 		"and Find of the whole table into []T, []*T and []map with and without Model; " +
 		"distinct = (feature set of the model, back-fill mode, create shape incl. slice length, batch size and key mode); non-trivial = the Create succeeded, every record's row was found by " +
-		"its in-memory key with raw SQL, and every column and every gorm read (First/Take/Find into structs and maps) was compared; a reused-destination round (reused-map/model|table, reused-struct, scanrows/map|struct, reused-slice) counts when all its reads compared equal",
+		"its in-memory key with raw SQL, and every column and every gorm read (First/Take/Find into structs and maps) was compared; a reused-destination round (reused-map/model|table, reused-struct, reused-struct-other, scanrows/map|struct, reused-slice) counts when all its reads compared equal",
 	Assumptions: []string{
 		"a Go-zero value in a field carrying a default tag means 'use the default' (gorm's documented rule); the expected value is then the tag's literal or the database's result",
 		"values are representable in the column type: uint64 < 2^63, valid UTF-8 without NUL, no NaN/Inf, times in years 1..9999 with whole-minute zone offsets; times are compared as instants, -0 == +0, nil and empty []byte are equal",
@@ -1294,7 +1297,8 @@ var Engine = &core.Engine{
 		"gob-serialized values never contain empty non-nil slices/maps (gob does not distinguish them from nil) and are never nil pointers (gob refuses them)",
 		"RowsAffected is not part of the statement and is not checked",
 		"a map destination may be used any number of times: after a read every column key of the map holds the value of the row just read (NULL = nil); keys of the map that are not columns are not looked at. Rows() + ScanRows is taken as one of the query read paths of the title ('what queries load back'); its violations carry their own signatures (scanrows-map/, scanrows-struct/)",
-		"a struct destination is fresh, or already holds the very record that is read again: a struct that still holds ANOTHER record is not generated as destination of First/Take (gorm uses a non-zero key in it as a query condition and leaves a field as it is when its column is NULL; ScanRows, which zeroes the struct itself, is generated with a reused struct)",
+		"a struct destination is fresh, already holds the very record that is read again, or still holds ANOTHER record with its key fields reset to their zero value (gorm uses a non-zero key in the destination as a query condition: that is not generated). In the last case only the fields whose column holds a value in the row read are compared: gorm leaves a field as it is when its column is NULL, and the statement does not say what such a field of a used destination must hold (ScanRows, which zeroes the struct itself, is compared on every field)",
+		"a name that is the column of one field and the Go name of another one is handed to gorm only as a column name (result columns; map keys of Create): the Go-name spelling of a map key is generated only for fields whose Go name is not a column of the model",
 		"Find into a []map that already holds maps is not generated (gorm appends to it; the statement does not say whether a result replaces or extends the destination); Find into a reused []T / []*T must return exactly the table's records",
 		"a pointer field whose type is its own serializer (*SelfJS) never sits below a pointer-embedded struct and is non-nil in every ordinary record; the nil pointer is exercised once per database by a closing single Create (it panics inside gorm as long as the Value method is called through the nil pointer)",
 		"the first Create of every database is a single record with every embedded pointer set, and Create([]map) by value and CreateInBatches over maps run last: where gorm panics the handle is abandoned, and inside CreateInBatches a panic would dead-lock database/sql's Rollback",
